@@ -229,11 +229,25 @@ func (o *Operator) HandleDeploy(ctx context.Context, req *workerpb.DeployOperato
 }
 
 func (o *Operator) HandleRemoveCheckpoints(ctx context.Context, req *workerpb.UpdateRetainedCheckpointsRequest) error {
-	return o.db.UpdateRetainedCheckpoints(req.CheckpointIds)
+	// The job sends retention updates to the members of its current assembly,
+	// which may still be in HandleDeploy: wait for the deployment (it holds the
+	// lock while it opens the database) instead of reading the field it is
+	// assigning.
+	o.mu.RLock()
+	db := o.db
+	o.mu.RUnlock()
+	if db == nil {
+		return fmt.Errorf("operator %s has no database yet (not deployed)", o.id)
+	}
+	return db.UpdateRetainedCheckpoints(req.CheckpointIds)
 }
 
 func (o *Operator) HandleNeedsTable(fileURI string) bool {
-	return o.db.NeedsTable(fileURI)
+	// A neighbor can ask while this operator is being deployed, see above.
+	o.mu.RLock()
+	db := o.db
+	o.mu.RUnlock()
+	return db.NeedsTable(fileURI)
 }
 
 func (o *Operator) HandleEvent(ctx context.Context, senderID string, req *workerpb.Event) error {
